@@ -6,7 +6,7 @@ import string
 # the classes the property quantifies over (+ the initial-character ones) ...
 CLASSES = ["plain", "reserved", "mixed", "space", "qchar", "squote", "nonascii", "digit", "underscore", "dollar", "edge"]
 # ... and classes outside its list that the generator also exercises (known findings live here)
-EXTRA_CLASSES = ["percent", "tab", "nl"]
+EXTRA_CLASSES = ["percent", "tab"]
 
 SCHEMA_KINDS = ["none", "plain", "quoting", "dotted", "qn"]
 
@@ -71,8 +71,6 @@ def gen_name(rng, cls, close_q, open_q, reserved_words, for_schema=False):
         return insert(rng, w, rng.choice(["%", "%", "%%", " %"]))
     if cls == "tab":
         return insert(rng, w, "\t")
-    if cls == "nl":
-        return w + "\n"
     raise ValueError(cls)
 
 
